@@ -340,7 +340,7 @@ def plan(tier):
             jobs.append(Job("pipeline_xsd", {"k0": k0, "style": s, "compound": c, "unnest": u}, 600, 60, note="selector driven"))
     for k0 in range(len(MNAMES)):
         for ci, (s, c, u) in enumerate(combos):
-            if quick and ci not in ((k0 * 3 + 2) % len(combos), (k0 * 3 + 9) % len(combos)):
+            if quick and ci != (k0 * 3 + 2 + 10 * (k0 % 2)) % len(combos):
                 continue
             if not quick and (ci - k0 * 3 - 2) % len(combos) not in THOROUGH_ROT:
                 continue
